@@ -85,6 +85,14 @@ Section Render.
     | None => match find_reg_helper name with Some _ => true | None => false end
     end.
 
+  (* probe decorator `sethelper name [tag]`: the local helper registered under `name` prints `tag` (default: name), so
+     that two registrations under one name can be told apart *)
+  Definition sethelper_tag (d : deco_v) (name : str) : str :=
+    match dv_params d with
+    | _ :: q :: _ => match pj_value q with JStr t => t | _ => name end
+    | _ => name
+    end.
+
   (* RenderContext::get_partial *)
   Definition current_pb (s : rstate) : option (template * Z) :=
     let len := Z.of_nat (length (s_pb_stack s)) in
@@ -618,7 +626,7 @@ Section Render.
               | p :: _ =>
                   match pj_value p with
                   | JStr name =>
-                      ROk tt (set_local_helpers s1 (map_insert (s_local_helpers s1) name (HLocal name)))
+                      ROk tt (set_local_helpers s1 (map_insert (s_local_helpers s1) name (HLocal (sethelper_tag d name))))
                   | _ => rfail (ROther (`"sethelper")) s1
                   end
               | [] => rfail (ROther (`"sethelper")) s1
